@@ -35,6 +35,13 @@ Proof.
     destruct (ov || starts_with bp [95%N]); apply F; [apply tinv_store_bind, H|exact H].
 Qed.
 
+Lemma tinv_binds l : forall s, tinv s -> tinv (fst (m_binds s l)).
+Proof.
+  induction l as [|[p n] r IH]; intros s H; cbn [m_binds]; auto.
+  pose proof (tinv_bind s (Some p) n true false H) as M.
+  destruct (snd (m_bind s (Some p) n true false)); cbn [fst]; auto.
+Qed.
+
 Section M.
   Variables (split split_s : str -> option (str * str)) (ncname : str -> bool).
 
@@ -102,6 +109,8 @@ Section M.
     - pose proof (tinv_normalize s u H). destruct (m_normalize split s u) as [s' [x|[q|e]]]; exact H0.
     - exact H.
     - apply tinv_reset.
+    - pose proof (tinv_binds (eff_decls decls) s H) as M.
+      destruct (m_binds s (eff_decls decls)) as [s' e]. exact M.
     - exact H.
   Qed.
 
